@@ -209,12 +209,44 @@ impl<T: ?Sized> RwLock<T> {
         }
     }
 
+    #[track_caller]
+    pub fn try_read(&self) -> TryLockResult<RwLockReadGuard<'_, T>> {
+        let key = self.key();
+        sched::sched_point(sched::site());
+        match self.inner.try_read() {
+            Ok(g) => Ok(RwLockReadGuard { guard: Some(g), key }),
+            Err(TryLockError::Poisoned(p)) => Err(TryLockError::Poisoned(PoisonError::new(RwLockReadGuard { guard: Some(p.into_inner()), key }))),
+            Err(TryLockError::WouldBlock) => Err(TryLockError::WouldBlock),
+        }
+    }
+
+    #[track_caller]
+    pub fn try_write(&self) -> TryLockResult<RwLockWriteGuard<'_, T>> {
+        let key = self.key();
+        sched::sched_point(sched::site());
+        match self.inner.try_write() {
+            Ok(g) => Ok(RwLockWriteGuard { guard: Some(g), key }),
+            Err(TryLockError::Poisoned(p)) => Err(TryLockError::Poisoned(PoisonError::new(RwLockWriteGuard { guard: Some(p.into_inner()), key }))),
+            Err(TryLockError::WouldBlock) => Err(TryLockError::WouldBlock),
+        }
+    }
+
     pub fn is_poisoned(&self) -> bool {
         self.inner.is_poisoned()
     }
 
     pub fn get_mut(&mut self) -> LockResult<&mut T> {
         self.inner.get_mut()
+    }
+
+    pub fn clear_poison(&self) {
+        self.inner.clear_poison()
+    }
+}
+
+impl<T> From<T> for RwLock<T> {
+    fn from(t: T) -> Self {
+        RwLock::new(t)
     }
 }
 
@@ -314,6 +346,24 @@ impl<T: ?Sized> Arc<T> {
     }
 }
 
+impl<T: Clone> Arc<T> {
+    pub fn make_mut(this: &mut Self) -> &mut T {
+        std::sync::Arc::make_mut(&mut this.0)
+    }
+    pub fn unwrap_or_clone(this: Self) -> T {
+        match Arc::try_unwrap(this) {
+            Ok(t) => t,
+            Err(a) => (*a).clone(),
+        }
+    }
+}
+
+impl<T: ?Sized + PartialEq> PartialEq for Arc<T> {
+    fn eq(&self, other: &Self) -> bool {
+        *self.0 == *other.0
+    }
+}
+
 impl<T: ?Sized> Clone for Arc<T> {
     #[track_caller]
     fn clone(&self) -> Self {
@@ -365,6 +415,12 @@ impl<T> Default for Weak<T> {
     }
 }
 impl<T: ?Sized> Weak<T> {
+    pub fn weak_count(&self) -> usize {
+        self.0.weak_count()
+    }
+    pub fn ptr_eq(&self, other: &Self) -> bool {
+        self.0.ptr_eq(&other.0)
+    }
     #[track_caller]
     pub fn upgrade(&self) -> Option<Arc<T>> {
         sched::sched_point(sched::site());
@@ -731,6 +787,16 @@ pub mod mpsc {
                     }
                 }
             }
+        }
+
+        /// non-blocking drain (each step is a scheduling point)
+        pub fn try_iter(&self) -> impl Iterator<Item = T> + '_ {
+            std::iter::from_fn(move || self.try_recv().ok())
+        }
+
+        /// blocking iteration until every sender is gone
+        pub fn iter(&self) -> impl Iterator<Item = T> + '_ {
+            std::iter::from_fn(move || self.recv().ok())
         }
 
         #[track_caller]
